@@ -869,6 +869,9 @@ def gen_end_to_end(rng):
     per = 1 if ptype in ('G', 'K') else nchan
     samples = []
     cols = [gen_values(rng, k, True) for _ in range(per)]
+    if ptype == 'B':                        # interpolation runs along the channel axis: one phase window per sample
+        rows = [gen_values(rng, per, True) for _ in range(k)]
+        cols = [[rows[i][c] for i in range(k)] for c in range(per)]
     for i, t in enumerate(times):
         if ptype == 'K':
             samples.append([t, [None if rng.random() < 0.3 else str(Fr(rng.randint(-64, 64), 256) + Fr(i, 1024))]])
